@@ -433,6 +433,7 @@ func runPrio1Bubble(sc scenario) result {
 	pendingCmds.Wait()
 	close(quit)
 	synctest.Wait()
+	res.vals = append(res.vals, "goroutines", fmt.Sprint(libGoroutines()))
 	return res
 }
 
